@@ -15,7 +15,7 @@ using namespace wc;
 #define VK_RM 0             // Receive Maximum announced by the broker (0: none)
 #endif
 #ifndef VK_DROP
-#define VK_DROP 0            // how the connection dies: 0 reset, 1 eof / broken pipe, 2 aborted, 3 any of them (forked)
+#define VK_DROP 0            // how the connection dies: 0 reset, 1 eof / broken pipe, 2 aborted, 3 seen by the reader only (write in flight is aborted by the reconnect), 9 any of them (forked)
 #endif
 #ifndef VK_MODE      // 1: C01, 2: C02, 3: C03, 6: C06
 #define VK_MODE 1
